@@ -64,15 +64,15 @@ add("C12", "model_checking", "explicit-state model checking of all six decoders 
     GRAPH_NOTE + "IsEmpty() on a nil v2 receiver is outside the property's operation list.", "5.2, 5.3, 6 (C12)", "GRAPH")
 
 ENGINES.append({"name": "HIST", "path": "mc/cmd/cvssmc/hist.go, mc/cmd/gendump", "serves_properties": ["C15"],
-     "kind_free_text": "breadth-first search over operation sequences on live objects; state key = reflective object dump + dump of every package-level variable (generated from the current tree, injected by -overlay); successors by replay; differential invariants between histories and against a pristine process (DESIGN.md 5.3)"})
+     "kind_free_text": "breadth-first search over operation sequences on live objects; state key = reflective object dump + dump of every package-level variable (generated from the current tree, injected by -overlay); successors by replay; differential invariants between histories and against a pristine process (DESIGN.md 5.3); map-order explorer mc/cmd/sched/maporder.go on the instrumented build (DESIGN.md 10.4)"})
 ENGINES.append({"name": "TMPL", "path": "mc/cmd/cvssmc/tmpl.go", "serves_properties": ["C19"],
      "kind_free_text": "all template programs up to a size over a small grammar against text/template as reference; every reader behaviour and every read-failure position (DESIGN.md 5.5)"})
 ENGINES.append({"name": "TABLES", "path": "mc/cmd/cvssmc/tables.go, names.go, reports.go", "serves_properties": ["C17", "C18", "C20"],
      "kind_free_text": "complete enumeration of finite tables (codes, enum integers, weights, names x languages) and deviation-bounded enumeration of report inputs"})
 
-add("C15", "model_checking", "explicit-state search over operation histories on live objects (depth 3/4) with state key = object dump + all package-level variables, successors by replay on the real code, differential invariants I1-I3; plus all processing orders of colliding vectors",
+add("C15", "model_checking", "explicit-state search over operation histories on live objects (depth 3/4) with state key = object dump + all package-level variables, successors by replay on the real code, differential invariants I1-I3; plus all processing orders of colliding vectors; plus exhaustive enumeration of map iteration orders as an environment choice (instrumented build: every range over a map asks the explorer for its order; every single range event of every catalogue operation deviates in turn, complete score domains under 24 uniform order policies)",
     "Every sequence of queries, single-field mutations and unrelated decodes up to the depth bound is executed from every start object (decoded, failed, fresh, nil); merging only on identical complete state (object + every package-level variable), so a hidden memo or shared table adds states instead of being missed.",
-    "Trusted: reflective dump of objects and of the package-level variables enumerated by go/parser from the current tree (mc/cmd/gendump). No expected values are assumed: results are compared between histories and with a pristine child process.", "5.3, 6 (C15)", "HIST")
+    "Trusted: reflective dump of objects and of the package-level variables of every non-main package of the current tree, enumerated by go/parser (mc/cmd/gendump). No expected values are assumed: results are compared between histories, between map iteration orders and with a pristine child process. If the instrumented build cannot be produced for a changed tree the map-order phase is skipped and says so.", "5.3, 6 (C15), 10.4", "HIST+SCHED(instrumenter)")
 add("C17", "exploration", "deviation-bounded exhaustive enumeration: every vector within 2 (quick) / 3 (thorough) metric changes of 4 background vectors x 9 language settings x 3 report levels, every exported report field compared with a hand-wired oracle",
     "Field wiring is per field, so two deviations already separate any two metrics; the field list is enumerated by reflection so that an uncovered field is an infrastructure error rather than silently skipped.",
     "Trusted: the field->metric wiring table in mc/cmd/cvssmc/reports.go, names.* as oracle for display names (C18), the exact score oracle.", "6 (C17)", "TABLES")
@@ -89,6 +89,6 @@ add("C20", "exploration", "complete enumeration of finite tables: 36 metrics + 2
 ENGINES.append({"name": "SCHED", "path": "sched/instr (AST rewriter), sched/verifsched (controlled scheduler + sync/atomic shims), mc/cmd/sched (explorer), mc/cmd/racepass, mc/internal/scen",
      "serves_properties": ["C16"],
      "kind_free_text": "stateless depth-first enumeration of all schedules of small closed drivers up to a preemption bound (iterative context bounding) on the real code, instrumented at check time with a scheduling point before every statement that can touch shared state; plus a free-running -race pass (DESIGN.md 5.4)"})
-add("C16", "model_checking", "stateless model checking of the real code under a controlled scheduler: all schedules of 205 two-/three-thread scenarios up to preemption bound 1/2 (iterative context bounding, static partial-order reduction of local-only statements), results compared with the sequential run; plus a separate free-running race-detector pass",
-    "Every schedule with at most 1 preemption for every pair of the 14-operation catalogue (shared and distinct receivers) and the 3-thread scenarios, at most 2 preemptions for short operations (quick) / all scenarios (thorough); determinism of replay is checked on every scenario.",
+add("C16", "model_checking", "stateless model checking of the real code under a controlled scheduler: all schedules of 489 two-/three-thread scenarios up to preemption bound 1/2 (iterative context bounding, static partial-order reduction of local-only statements), results compared with the sequential run; plus a separate free-running race-detector pass",
+    "Every schedule with at most 1 preemption for every pair of the 20-operation catalogue (shared and distinct receivers), six mixed 3-thread scenarios and every multiset of three short queries on one shared object, at most 2 preemptions for short operations (quick) / all scenarios (thorough); determinism of replay is checked on every scenario.",
     "Assumes statement-level atomicity and sequential consistency; code outside the library packages is atomic between scheduling points; the race detector pass is sampling, not exhaustive. If the instrumented build cannot be produced for a changed tree the check degrades to the race pass alone and says so.", "5.4, 6 (C16)", "SCHED")
